@@ -93,6 +93,12 @@ declarations:
     c_header: real_type.h
     cxx_header: real_type.hpp
 - decl: OffsetType locate(IndexType idx, OffsetType base, TagType tag, RealType w)
+  doxygen:
+    brief: locate an entry
+    description: |
+      Two lines of description,
+      the text ends with a newline.
+    return: the offset
 - decl: void fill(IndexType *idx +rank(1), int n +implied(size(idx)))
 - decl: void scale(RealType *v +rank(1)+intent(inout), size_t n +implied(size(v)), int64_t by)
 - decl: const std::string label(TagType tag, const std::string &prefix)
@@ -298,6 +304,45 @@ def cli_run(args):
     return ("ok", tree)
 
 
+def path_case(args):
+    """Splicer files are looked up along --path only: a file of the same name in the current directory must not be read.
+    Two runs with absolute arguments, one from an empty directory, one from a directory holding a decoy."""
+    workdir, text, repo = args
+    import yaml as _y
+    d = _y.safe_load(text)
+    d["splicer"] = {"c": ["user_splicer.c"], "f": ["user_splicer.f"]}
+    trees = []
+    spl = os.path.join(workdir, "spl")
+    os.makedirs(spl)
+    with open(os.path.join(spl, "user_splicer.c"), "w") as fp:
+        fp.write("// splicer begin CXX_definitions\n// from the --path directory\nstatic int from_path = 1;\n// splicer end CXX_definitions\n")
+    with open(os.path.join(spl, "user_splicer.f"), "w") as fp:
+        fp.write("! splicer begin module_top\ninteger, parameter :: from_path = 1\n! splicer end module_top\n")
+    ypath = os.path.join(workdir, "lib.yaml")
+    with open(ypath, "w") as fp:
+        _y.safe_dump(d, fp, sort_keys=False)
+    for tag in ("empty", "decoy"):
+        cwd = os.path.join(workdir, "cwd-" + tag)
+        out = os.path.join(workdir, "out-" + tag)
+        os.makedirs(cwd)
+        os.makedirs(out)
+        if tag == "decoy":
+            with open(os.path.join(cwd, "user_splicer.c"), "w") as fp:
+                fp.write("// splicer begin CXX_definitions\nstatic int from_cwd = 2;\n// splicer end CXX_definitions\n")
+            with open(os.path.join(cwd, "user_splicer.f"), "w") as fp:
+                fp.write("! splicer begin module_top\ninteger, parameter :: from_cwd = 2\n! splicer end module_top\n")
+        env = dict(os.environ, PYTHONPATH=repo, PYTHONHASHSEED="0", PYTHONDONTWRITEBYTECODE="1")
+        env.pop("SHROUD_VERIF", None)
+        p = subprocess.run([sys.executable, "-m", "shroud.main", "--path", spl, "--outdir", out, "--logdir", out, ypath], cwd=cwd, env=env, capture_output=True, text=True, errors="replace")
+        if p.returncode != 0:
+            shutil.rmtree(workdir, ignore_errors=True)
+            return ("fail", p.stderr[-300:], None)
+        t = isolate.read_tree(out, skip_ext=(".log", ".json"))
+        trees.append({k: v.replace(out.encode(), b"<OUT>") for k, v in t.items()})
+    shutil.rmtree(workdir, ignore_errors=True)
+    return ("ok", trees[0], trees[1])
+
+
 def patched_run(args):
     """In a forked child: patch clock/host/pid/random to the given answers, then generate."""
     workdir, text, extra, variant = args
@@ -416,7 +461,8 @@ def run(ctx):
         add("abs-cwd-root", {"PYTHONHASHSEED": "0"}, absolute=True)
         add("abs-cwd-elsewhere", {"PYTHONHASHSEED": "0"}, absolute=True, cwd_other=other_cwd)
         add("env-A", {"PYTHONHASHSEED": "0", "HOME": "/nonexistent/a", "USER": "alice", "HOSTNAME": "hosta", "LANG": "C", "TZ": "UTC", "SOURCE_DATE_EPOCH": "1"})
-        add("env-B", {"PYTHONHASHSEED": "0", "HOME": "/tmp", "USER": "bob", "HOSTNAME": "hostb", "LANG": "en_US.UTF-8", "LC_ALL": "C.UTF-8", "TZ": "Asia/Tokyo", "SOURCE_DATE_EPOCH": "1700000000"})
+        add("env-B", {"PYTHONHASHSEED": "0", "HOME": "/tmp", "USER": "bob", "HOSTNAME": "hostb", "LANG": "en_US.UTF-8", "LC_ALL": "C.UTF-8", "TZ": "Asia/Tokyo", "SOURCE_DATE_EPOCH": "1700000000",
+                      "PYTHONOPTIMIZE": "1", "PYTHONDONTWRITEBYTECODE": "1", "PYTHONUNBUFFERED": "1", "COLUMNS": "40"})
         stale = sorted(k2 for k2 in fresh[[a[0] for a in alphabet].index(name)] if "/" not in k2)
         add("dirty-outdir", {"PYTHONHASHSEED": "0"}, dirty=stale)
     cres = isolate.pmap(cli_run, jobs, W)
@@ -451,6 +497,17 @@ def run(ctx):
                 name, label, l0, "\n".join(isolate.diff_trees(a, b, 2))), {"kind": "dimension", "lib": name, "label": label})
     ctx.count(states=len(cres), transitions=len(cres), validated=len(cres))
     ctx.part("dimensions", runs=len(cres), libraries=len(sel), hash_seeds=seeds)
+    # ---- --path and the current directory
+    pres_ = isolate.pmap(path_case, [(os.path.join(ctx.subdir("pth"), nm), text, ctx.repo) for (nm, text, extra) in sel[:3]], W)
+    for (nm, _, _), (st, ta, tb) in zip(sel[:3], pres_):
+        if st != "ok":
+            ctx.violation("path-cwd %s" % nm, "run with --path failed: %s" % ta, {"kind": "path", "lib": nm})
+        elif ta != tb:
+            ctx.violation("path-cwd %s" % nm, "%s: with --path given, a splicer file of the same name in the current directory changes the output:\n%s" % (
+                nm, "\n".join(isolate.diff_trees(ta, tb, 2))), {"kind": "path", "lib": nm})
+        elif not any(b"from_path" in v for v in ta.values()):
+            ctx.violation("path-cwd %s" % nm, "%s: the splicer file in the --path directory was not read" % nm, {"kind": "path", "lib": nm})
+    ctx.count(states=len(pres_), transitions=2 * len(pres_), validated=2 * len(pres_))
     # ---- patched clock / host / pid / random
     pbase = ctx.subdir("p")
     # variants 0/1: the plain command line under two clocks / hosts; 2/3: the same with every optional output file requested
